@@ -782,12 +782,17 @@ def _gen_admm(rng, cplx, edge):
     if is_block(xs) or (len(xs) == 2 and solver != "circ"):
         solver = "linear"
     Cs = []
-    mkinds = _pick(rng, [["mat"], ["mat"], ["id", "diag", "sid"]])
+    # MatrixSubproblemSolver: all-MatrixOperator, all-diagonal (Identity / ScaledIdentity / Diagonal) and - legal since
+    # 35adc7f - MIXED diagonal / matrix constraint lists (f=None and a Diagonal f.A work since de41369)
+    mkinds = _pick(rng, [["mat"], ["id", "diag", "sid"], ["mat", "diag", "id", "sid"], ["mat", "diag", "id", "sid"]])
     for i in range(N):
         if solver == "matrix":
-            # MatrixSubproblemSolver: all-Diagonal or all-MatrixOperator constraint lists (f=None and Diagonal f.A work
-            # since de41369; a mixture of the two kinds is still rejected by MatrixATADSolver - C10 territory)
             Cs.append(gen_op(rng, xs, cplx, False, mkinds))
+            if mkinds[0] == "mat" and len(mkinds) > 1 and i == 1 and N >= 2:
+                # force a genuine mixture: constraint 0 and 1 of different kinds
+                k0 = "mat" if Cs[0]["t"] == "mat" else "dg"
+                want = ["diag", "id", "sid"] if k0 == "mat" else ["mat"]
+                Cs[1] = gen_op(rng, xs, cplx, False, want)
         elif solver == "circ":
             # CircularConvolveSolver: shift-invariant constraints only
             Cs.append(_pick(rng, [{"t": "id"}, {"t": "sid", "s": _pick(rng, [0.5, 2.0, -1.0])},
